@@ -962,7 +962,11 @@ class MBXML:
             (doc_len_bytes, idx) = cls.read_uintvar(data, idx)
             rtn.append(
                 cls.read_document(
-                    doctype=doctype, data=data, idx=idx, previous_doc=last_doc
+                    doctype=doctype,
+                    # document ends after doc_len_bytes, other document(s) may follow
+                    data=data[: idx + doc_len_bytes],
+                    idx=idx,
+                    previous_doc=last_doc,
                 )
             )
             idx += doc_len_bytes
